@@ -282,7 +282,13 @@ func (a *appGenerator) makeCodegenApp() (GenApp, error) {
 	log.Printf("planning definitions (found: %d)", len(a.Models))
 
 	genModels := make(GenDefinitions, 0, len(a.Models))
-	for mn, m := range a.Models {
+	modelNames := make([]string, 0, len(a.Models))
+	for mn := range a.Models {
+		modelNames = append(modelNames, mn)
+	}
+	sort.Strings(modelNames)
+	for _, mn := range modelNames {
+		m := a.Models[mn]
 		model, err := makeGenDefinition(
 			mn,
 			a.ModelsPackage,
